@@ -34,7 +34,7 @@ def fam_length(case, ref, unit):
     extra = ()
     if case.root != "CommandResponseStream" and case.b:
         extra = (case.b,)  # a whole further message
-    yield from faults.suffixes(case.b, extra)
+    yield from faults.suffixes(case.b, extra + (bytes(range(256)) + bytes(44),))  # and a long one (300 bytes)
 
 
 def fam_subst(case, ref, unit):
@@ -84,7 +84,7 @@ def run_unit(unit, families, own, extra_check=None):
         for fam in families:
             for m, f in FAMILIES[fam](case, ref0, unit):
                 loader.cache_clear()
-                ref, r, probs = oracle.compare_strict(case.root, m, cc=case.cc, enc=case.enc)
+                ref, r, probs = oracle.compare_strict(case.root, m, cc=case.cc, enc=case.enc, root_path=unit.get("root_path"))
                 acc.count("evaluations")
                 acc.count("expected:" + ref.kind)
                 acc.count("family:" + f["fault"])
@@ -92,8 +92,8 @@ def run_unit(unit, families, own, extra_check=None):
                 d = None
                 for p in probs:
                     if p["clause"] in own:
-                        d = d or dict(case.desc(), harness="faultspace", input=m.hex(), fault=f)
-                        acc.violation(oracle.fp_of(p, root=oracle.rootclass(case.root), family=f["fault"]), d, p["detail"], size=len(m))
+                        d = d or dict(case.desc(), harness="faultspace", input=m.hex(), fault=f, root_path=unit.get("root_path"))
+                        acc.violation(oracle.fp_of(p, root=oracle.rootclass(case.root), family=f["fault"], **({"custom_root_path": True} if unit.get("root_path") else {})), d, p["detail"], size=len(m))
                     else:
                         acc.count("other_clause:" + p["clause"])
                 if extra_check is not None:
@@ -109,7 +109,7 @@ def replay(case, own, extra_check=None):
     acc = Acc()
     loader.load()
     b = bytes.fromhex(case["input"])
-    ref, r, probs = oracle.compare_strict(case["root"], b, cc=case.get("cc"), enc=case.get("enc"))
+    ref, r, probs = oracle.compare_strict(case["root"], b, cc=case.get("cc"), enc=case.get("enc"), root_path=case.get("root_path"))
     for p in probs:
         if p["clause"] in own:
             acc.violation(oracle.fp_of(p, root=oracle.rootclass(case["root"])), case, p["detail"])
